@@ -134,7 +134,7 @@ Proof.
       destruct (c =? nc) eqn:E; intro H.
       + inversion H; subst. intro Hin. apply W4 in Hin. lia.
       + apply (P c m H). }
-  destruct o as [m | c m | c | m k v]; simpl.
+  destruct o as [m | c m | c | m k v | c]; simpl.
   - (* TNewMap *)
     split.
     + apply FRESHM. intros x [Hx|Hx]; [lia|]. apply W4 in Hx. lia.
@@ -164,6 +164,23 @@ Proof.
     + exact W2.
     + intros c0 m0 H. rewrite zfind_zset. destruct (m0 =? m); [eauto|]. apply (W3 c0 m0 H).
     + exact W4.
+  - (* TDerive *)
+    destruct (zfind c cs) as [o0|] eqn:Hc; simpl; [|split; [exact W|exact P]].
+    assert (PAR : forall m, o0 = Some m -> moc cs c = Some m).
+    { intros m ->. unfold moc. rewrite Hc. reflexivity. }
+    split.
+    + unfold th_wf; simpl. repeat split.
+      * exact W1.
+      * intros c0 o1. destruct (c0 =? nc) eqn:E; intro H; [lia|]. apply W2 in H. lia.
+      * intros c0 m0. rewrite map_of_ctx_moc. simpl. rewrite moc_cons.
+        destruct (c0 =? nc) eqn:E; intro H.
+        -- apply PAR in H. apply (W3 c m0 H).
+        -- apply (W3 c0 m0 H).
+      * exact W4.
+    + unfold private; simpl. intros c0 m0. rewrite map_of_ctx_moc. simpl. rewrite moc_cons.
+      destruct (c0 =? nc) eqn:E; intro H.
+      * apply PAR in H. apply (P c m0 H).
+      * apply (P c0 m0 H).
 Qed.
 
 Lemma wf0 : th_wf th0 /\ private th0.
@@ -206,7 +223,7 @@ Proof.
     assert (c =? nc = false) as -> by lia.
     destruct (moc cs c) as [m0|] eqn:E; [|reflexivity].
     apply PM in E. assert (m0 =? nm = false) as -> by lia. reflexivity. }
-  destruct o as [m | c0 m | c0 | m k v]; simpl.
+  destruct o as [m | c0 m | c0 | m k v | c0]; simpl.
   - apply FRESHM.
   - destruct (zfind m ms) as [addm|]; simpl; [|reflexivity].
     rewrite map_of_ctx_moc; simpl.
@@ -220,6 +237,9 @@ Proof.
     rewrite zfind_zset. apply existsb_eqb_In in Ex.
     destruct (m0 =? m) eqn:E2; [|reflexivity].
     assert (m0 = m) by lia. subst. exfalso. exact (P c m E Ex).
+  - destruct (zfind c0 cs) as [o0|]; simpl; [|reflexivity].
+    unfold tags_of. rewrite !map_of_ctx_moc. simpl. rewrite moc_cons.
+    assert (c =? nc = false) as -> by lia. reflexivity.
 Qed.
 
 Theorem old_contexts_unchanged : forall ops o c,
@@ -254,13 +274,15 @@ Lemma step_ctx_kept : forall h o c, (exists x, zfind c (ctxs h) = Some x) -> c <
     (exists x, zfind c (ctxs (fst (tstep good h o))) = Some x).
 Proof.
   intros [ms cs nm nc cl] o c [x Hx] Hlt. simpl in *.
-  destruct o as [m | c0 m | c0 | m k v]; simpl.
+  destruct o as [m | c0 m | c0 | m k v | c0]; simpl.
   - eauto.
   - destruct (zfind m ms) as [addm|]; simpl; [|eauto].
     destruct (map_of_ctx _ c0) as [cur|]; simpl; assert (c =? nc = false) as -> by lia; eauto.
   - destruct (map_of_ctx _ c0) as [mid|]; simpl; eauto.
   - destruct (existsb (fun x => x =? m) cl); simpl; [|eauto].
     destruct (zfind m ms); simpl; eauto.
+  - destruct (zfind c0 cs) as [o0|]; simpl; [|eauto].
+    assert (c =? nc = false) as -> by lia. eauto.
 Qed.
 
 Lemma run_old_unchanged : forall ops h c, th_wf h -> private h ->
@@ -296,6 +318,18 @@ Proof.
     unfold map_of_ctx in E. destruct (zfind (next_ctx h) _) eqn:E2; [eauto|discriminate].
   - rewrite run_old_unchanged; [apply step_old_unchanged; assumption|assumption|assumption|].
     apply step_ctx_kept; [assumption|]. destruct Hc as [x Hx]. destruct W as (_ & W2 & _). eapply W2; eauto.
+Qed.
+
+(* any other derivation (a value, a deadline, a cancel function, the fire-now marker) shows its parent's tags *)
+Theorem derive_keeps_tags : forall ops c,
+    let h := trun good th0 ops in
+    (exists x, zfind c (ctxs h) = Some x) ->
+    snd (tstep good h (TDerive c)) = Some (next_ctx h) /\
+    tags_of (fst (tstep good h (TDerive c))) (next_ctx h) = tags_of h c.
+Proof.
+  intros ops c h [x Hx]. simpl. rewrite Hx. simpl. split; [reflexivity|].
+  unfold tags_of. rewrite !map_of_ctx_moc. simpl. rewrite moc_cons, Z.eqb_refl.
+  unfold moc. rewrite Hx. destruct x; reflexivity.
 Qed.
 
 (* ---------- read is a copy ---------- *)
